@@ -89,7 +89,8 @@ Theorem C01_receive_fragments : forall cfg history a b v1 ra r,
   let v := fst (fst (fst (feed cfg (rv_init cfg) history))) in
   receive cfg v a = (v1, ra, r) ->
   (ra <> [] -> receive cfg v (a ++ b) = (v1, ra ++ b, r)) /\
-  (ra = [] -> r = RX_INCOMPLETE -> rc_valid (rv_chunk v1) = false -> receive cfg v (a ++ b) = receive cfg v1 b).
+  (ra = [] -> r = RX_INCOMPLETE -> hd_is_chunked (rq_headers (rv_req v1)) = false \/ rc_valid (rv_chunk v1) = false ->
+   receive cfg v (a ++ b) = receive cfg v1 b).
 Proof. exact receive_app_reachable. Qed.
 
 (* the read loop of http_server::receive_handler: when a read ends in the middle of a message (its last receive()
@@ -98,7 +99,8 @@ Proof. exact receive_app_reachable. Qed.
    sufficiently large fuel (fuel is an artefact of the model; more fuel never changes a completed run) *)
 Theorem C01_cut_mid_message : forall cfg history a b v1 e1 c1 v2 e2 c2,
   let v := fst (fst (fst (feed cfg (rv_init cfg) history))) in
-  read_loop cfg v a = (v1, e1, c1, false) -> ends_incomplete c1 -> no_reject c1 -> rc_valid (rv_chunk v1) = false ->
+  read_loop cfg v a = (v1, e1, c1, false) -> ends_incomplete c1 -> no_reject c1 ->
+  hd_is_chunked (rq_headers (rv_req v1)) = false \/ rc_valid (rv_chunk v1) = false ->
   read_loop cfg v1 b = (v2, e2, c2, false) ->
   exists N c, forall k, rx_loop (N + k) cfg v (a ++ b) = (v2, e1 ++ e2, c, false).
 Proof.
@@ -118,6 +120,57 @@ Example C01_example_cut_mid_message :
   (o1, o2, o3) = (false, false, false) /\ e1 ++ e2 = e3 /\ v2 = v3 /\ length e3 = 1%nat /\ c1 = [(RX_INCOMPLETE, 31)].
 Proof. vm_compute. repeat split. Qed.
 
+(* the same for any read boundary that does not fall directly behind an interim EXPECT_CONTINUE (also one that falls
+   exactly behind a delivered request or chunk), when every request says how it is framed *)
+Theorem C01_cut_anywhere : forall cfg history a b v1 e1 c1 v2 e2 c2,
+  let v := fst (fst (fst (feed cfg (rv_init cfg) history))) in
+  rv_inv2 v ->
+  read_loop cfg v a = (v1, e1, c1, false) -> ends_well c1 -> no_reject c1 -> loop_framed (loop_fuel a) cfg v a = true ->
+  read_loop cfg v1 b = (v2, e2, c2, false) ->
+  exists N c, forall k, rx_loop (N + k) cfg v (a ++ b) = (v2, e1 ++ e2, c, false).
+Proof.
+  intros cfg history a b v1 e1 c1 v2 e2 c2 v Hi Ha He Hn Hf Hb.
+  destruct (rx_loop_cut cfg _ v a b v1 e1 c1 _ v2 e2 c2 (feed_ok cfg history _ (rv_ok_init cfg)) Hi Ha He Hn Hf Hb) as [c Hc].
+  exists (loop_fuel a + loop_fuel b)%nat, c. intros k. exact (rx_loop_more_fuel cfg _ _ _ _ _ _ Hc k).
+Qed.
+
+(* a whole connection: however the byte stream is cut into reads (cuts_ok: no cut directly behind an interim
+   EXPECT_CONTINUE, no rejection before the last read, every request framed, no read loop out of fuel), the reads
+   deliver, in order, exactly what the stream delivers when it arrives in a single read, and leave the receiver in
+   the same state.  No bound on the number or the sizes of the reads. *)
+Theorem C01_fragmentation_invariance : forall cfg frags, cuts_ok cfg (rv_init cfg) frags ->
+  exists N c, forall k,
+    rx_loop (N + k) cfg (rv_init cfg) (concat frags) =
+    (fst (fst (fst (feed cfg (rv_init cfg) frags))), snd (fst (fst (feed cfg (rv_init cfg) frags))), c, false).
+Proof.
+  intros cfg frags H. apply feed_is_stream; [exact (rv_ok_init cfg) | | exact H].
+  unfold rv_inv2. cbn. discriminate.
+Qed.
+
+(* non-vacuity: a POST with a body cut into four reads (inside the request line, inside a folded header, exactly
+   behind the head, inside the body) satisfies the premise, and the four reads deliver the one request *)
+Example C01_example_cuts_ok :
+  let cfg := mk_rcfg (mk_limits 8190 8 100 65534 1024 8 65534 65534 false) 1048576 1048576 true true in
+  let frags := [[80;79;83;84;32;47];
+                [32;72;84;84;80;47;49;46;49;13;10;72;111;115;116;58;32;104;13;10;88;58;32;97;13;10];
+                [32;98;13;10;67;111;110;116;101;110;116;45;76;101;110;103;116;104;58;32;51;13;10;13;10];
+                [120;121]; [122]] in
+  cuts_ok cfg (rv_init cfg) frags /\ length (snd (fst (fst (feed cfg (rv_init cfg) frags)))) = 1%nat.
+Proof.
+  split; [|vm_compute; reflexivity].
+  cbn [cuts_ok]. vm_compute.
+  repeat match goal with
+  | |- _ /\ _ => split
+  | |- ?a = ?a => reflexivity
+  | |- True => exact I
+  | |- _ \/ _ \/ _ =>
+      first [ right; left; reflexivity
+            | right; right; split;
+              [ eexists [], _, _; split; [reflexivity | first [left; reflexivity | right; left; reflexivity | right; right; reflexivity]]
+              | split; [ intros r n [E|[]]; inversion E; subst; split; discriminate | reflexivity ] ] ]
+  end.
+Qed.
+
 (* the premises are met: the invariant holds initially *)
 Example C01_example_invariant : forall cfg, rv_ok (rv_init cfg).
 Proof. exact rv_ok_init. Qed.
@@ -126,6 +179,8 @@ Print Assumptions C01_request_line_fragments.
 Print Assumptions C01_field_line_fragments.
 Print Assumptions C01_chunk_line_fragments.
 Print Assumptions C01_cut_mid_message.
+Print Assumptions C01_cut_anywhere.
+Print Assumptions C01_fragmentation_invariance.
 Print Assumptions C01_header_block_fragments.
 Print Assumptions C01_request_head_fragments.
 Print Assumptions C01_chunk_fragments.
